@@ -17,9 +17,9 @@ func init() {
 		"(R18a) no Close/Shutdown method of the module calls itself on its own receiver and each is idempotent by construction (sync.Once, closed flag under the mutex, or pure delegation to idempotent closes); "+
 		"(R18b) every value appended to the router's server closers is non-nil on that path and startServer returns a non-nil closer whenever it returns a nil error; "+
 		"(R18d) the router's close cancels the context and closes limiter, every upstream, the cache and every listener, run() registers components before the next fallible step and neither run nor its callees can panic/exit; "+
-		"(R18e) dial results that arrive after Close are closed and never published; (R18c) resources acquired in constructors are closed on later error paths; "+
+		"(R18e) dial results that arrive after Close are closed and never published; (R18c) resources acquired in constructors are closed on later error paths; (R18h) every closable resource a listener/upstream constructor keeps on success has a closing owner reachable from the constructed object's Close (outside the constructor's own error handling), directly, through a closer wrapper type that closes all its elements, or by being handed to a library server that closes what it serves; "+
 		"(R18f) loading a configuration cannot panic on its content: every index, slice and library precondition in the functions reachable only from start-up (rule/domain/ip list loaders, upstream address parsing, listener set-up) is in bounds, proved by the same engine as C01/R01a (five sites that need a dependency contract or a cross-iteration length argument are listed as reviewed). "+
-		"Not decided: promptness, general deadlock freedom, sockets owned by dependencies' internals.",
+		"Not decided: promptness, general deadlock freedom, what dependencies do with sockets they are handed.",
 		Rule{ID: "R18a", Doc: "close delegation well-founded and idempotent", Floor: 14, AllVariants: true, Run: r18a},
 		Rule{ID: "R18b", Doc: "server closers are non-nil", Floor: 3, Run: r18b},
 		Rule{ID: "R18c", Doc: "acquired resources are released on later error paths", Floor: 6, Run: r18c},
